@@ -171,3 +171,150 @@ def unchanged(a, b):
     if isinstance(a, float):
         return (math.isnan(a) and math.isnan(b)) or (a == b and math.copysign(1, a) == math.copysign(1, b))
     return a == b
+
+
+# ---- bounded quantifiers (natively executable; ForAll / Exists in verification conditions) -------
+
+def _q(ex, a, b, fn, forall):
+    ta, tb = I.as_int_term(a), I.as_int_term(b)
+    ex.fresh_count += 1
+    j = z3.Int(f'j!{ex.fresh_count}')
+    ex.pure += 1
+    try:
+        body = ex.truthy(ex.call(fn, [VInt(j)], {}))
+    finally:
+        ex.pure -= 1
+    rng = z3.And(ta <= j, j < tb)
+    return VBool(z3.ForAll([j], z3.Implies(rng, body)) if forall else z3.Exists([j], z3.And(rng, body)))
+
+
+@prim(lambda ex, a, b, fn: _q(ex, a, b, fn, True))
+def forall_range(a, b, fn):
+    return all(fn(j) for j in range(a, b))
+
+
+@prim(lambda ex, a, b, fn: _q(ex, a, b, fn, False))
+def exists_range(a, b, fn):
+    return any(fn(j) for j in range(a, b))
+
+
+def _q2(ex, a, b, fn):
+    ta, tb = I.as_int_term(a), I.as_int_term(b)
+    ex.fresh_count += 1
+    i, j = z3.Int(f'i!{ex.fresh_count}'), z3.Int(f'j!{ex.fresh_count}')
+    ex.pure += 1
+    try:
+        body = ex.truthy(ex.call(fn, [VInt(i), VInt(j)], {}))
+    finally:
+        ex.pure -= 1
+    return VBool(z3.ForAll([i, j], z3.Implies(z3.And(ta <= i, i < j, j < tb), body)))
+
+
+@prim(_q2)
+def forall_pairs(a, b, fn):
+    """for all a <= i < j < b"""
+    return all(fn(i, j) for i in range(a, b) for j in range(i + 1, b))
+
+
+def _item_lo(ex, it):
+    if isinstance(it, VItv):
+        return VInt(it.lo)
+    if isinstance(it, VInt):
+        return it
+    if isinstance(it, VTuple):
+        return it.items[0]
+    raise OutOfSubset(f'lo() of {it!r}')
+
+
+def _item_hi(ex, it):
+    if isinstance(it, VItv):
+        return VInt(it.hi)
+    if isinstance(it, VInt):
+        return VInt(it.t + 1)
+    if isinstance(it, VTuple):
+        return it.items[1]
+    raise OutOfSubset(f'hi() of {it!r}')
+
+
+@prim(_item_lo)
+def lo(it):
+    """first code point of a code point list item (an int c or a (lo, hi) range)"""
+    return it if isinstance(it, int) else it[0]
+
+
+@prim(_item_hi)
+def hi(it):
+    """one past the last code point of an item"""
+    return it + 1 if isinstance(it, int) else it[1]
+
+
+@prim(lambda ex, it: VBool(it.isint) if isinstance(it, VItv) else VBool(isinstance(it, VInt)))
+def is_int_item(it):
+    return isinstance(it, int)
+
+
+# ---- membership in the view of a code point list, with Hilbert-choice witnesses -------------------
+# mem(L, x) is  0 <= w < len(L) and lo(L[w]) <= x < hi(L[w])  for a witness constant w chosen
+# per (list state, x).  The defining axiom  forall c. (0 <= c < len and L[c] covers x) -> mem(L, x)
+# is valid for such a choice; instead of the quantifier, instances of it are added for candidate
+# indices: the witnesses of the other list states at the same x (and their neighbours, which is what
+# insertion/deletion shifts need) and the index hints of the contract.  Only valid instances are
+# added, so this is sound; it is incomplete only if a needed candidate is missing.
+
+def _mem(ex, L, x):
+    if not isinstance(L, VSeq):
+        raise OutOfSubset('mem() of a non-symbolic list')
+    xt = I.as_int_term(x)
+    reg = ex.path.__dict__.setdefault('mem_registry', [])
+    key = (L.arr.get_id(), z3.simplify(L.len).get_id(), xt.get_id())
+    for r in reg:
+        if r['key'] == key:
+            return VBool(r['formula'])
+    ex.fresh_count += 1
+    w = z3.Int(f'wit!{ex.fresh_count}')
+
+    def cov(arr, c):
+        it = z3.Select(arr, c)
+        return z3.And(ITV_SORT.lo(it) <= xt, xt < ITV_SORT.hi(it))
+    formula = z3.And(0 <= w, w < L.len, cov(L.arr, w))
+    me = {'key': key, 'formula': formula, 'w': w, 'len': L.len, 'arr': L.arr, 'x': xt}
+    hints = []
+    for h in getattr(ex, 'mem_hints', []):
+        try:
+            saved = ex.pure
+            t = I.as_int_term(ex.spec_eval(h, ex.hint_env))
+            if t is not None:
+                hints += [t, t - 1, t + 1]
+        except Exception:
+            pass
+    for r in reg:
+        if r['x'].get_id() != xt.get_id():
+            continue
+        for c in (r['w'], r['w'] - 1, r['w'] + 1):
+            ex.path.pc.append(z3.Implies(z3.And(0 <= c, c < L.len, cov(L.arr, c)), formula))
+        for c in (w, w - 1, w + 1):
+            ex.path.pc.append(z3.Implies(z3.And(0 <= c, c < r['len'], cov(r['arr'], c)), r['formula']))
+    for c in hints:
+        ex.path.pc.append(z3.Implies(z3.And(0 <= c, c < L.len, cov(L.arr, c)), formula))
+        for r in reg:
+            if r['x'].get_id() == xt.get_id():
+                ex.path.pc.append(z3.Implies(z3.And(0 <= c, c < r['len'], cov(r['arr'], c)), r['formula']))
+    reg.append(me)
+    return VBool(formula)
+
+
+@prim(_mem)
+def mem(L, x):
+    """x is in the set of code points denoted by the list L"""
+    return any(lo(it) <= x < hi(it) for it in L)
+
+
+def _take(ex, L, m):
+    t = I.as_int_term(m)
+    return VSeq(z3.If(t < 0, 0, z3.If(t > L.len, L.len, t)), L.arr, L.kind, L.pycls)
+
+
+@prim(_take)
+def take(L, m):
+    """the first m items of a list"""
+    return list(L[:max(m, 0)])
